@@ -179,6 +179,48 @@ def ranges(run, repo):
         r = I.call_function(m, fn, [], {'objs': objs, 'parent_obj': Obj('parent', repo.cls('pmutt._pmuttBase'))})
         run.check(isinstance(r, Raised) and r.exc == exc, 'PATH.reject', 'cantera._get_omkm_range', label,
                   '%s must be rejected with %s, got %s' % (label, exc, show(r)), m, fn)
+    # concrete identifiers: suffixes that are no integers, and a run that crosses from four to five digits
+    for label, ids_ in (('suffix 1.5', ['r_0001', 'r_1.5', 'r_0002']), ('suffix 1e3', ['r_1e3']),
+                        ('suffix with a sign', ['r_-0002', 'r_0001'])):
+        I = Interp(repo)
+        r = I.call_function(m, fn, [], {'objs': ListV(list(ids_)), 'format': 'list',
+                                        'parent_obj': Obj('parent', repo.cls('pmutt._pmuttBase'))})
+        if label == 'suffix with a sign':
+            continue            # int('-0002') is an integer: what happens to it is not promised either way
+        run.check(isinstance(r, Raised) and r.exc == 'ValueError', 'PATH.reject', 'cantera._get_omkm_range', label,
+                  'identifiers %s: a suffix that is not an integer must be rejected with ValueError, got %s'
+                  % (ids_, show(r, 120)), m, fn)
+
+    def expand(entries):
+        out = []
+        for e in entries:
+            e = I.plain(e)
+            if not isinstance(e, str):
+                return None
+            e = e.strip().strip('"')
+            if ' to ' in e:
+                a_, b_ = e.split(' to ')
+                ha, fa = a_.rsplit('_', 1)
+                hb, fb = b_.rsplit('_', 1)
+                if ha != hb or not (fa.isdigit() and fb.isdigit()):
+                    return None
+                for k_ in range(int(fa), int(fb) + 1):
+                    # every member is spelled like the end it is counted from
+                    out.append('%s_%s' % (ha, str(k_).zfill(len(fa)) if len(fa) == len(fb) else str(k_)))
+            else:
+                out.append(e)
+        return out
+    for label, ids_ in (('four to five digits', ['r_9998', 'r_9999', 'r_10000', 'r_10001']),
+                        ('five digits', ['r_10000', 'r_10001', 'r_10003']),
+                        ('two prefixes, mixed order', ['s_0007', 'r_0002', 's_0008', 'r_0001', 'r_0004'])):
+        I = Interp(repo)
+        lst = I.call_function(m, fn, [], {'objs': ListV(list(ids_)), 'format': 'list'})
+        got = expand(lst.items) if isinstance(lst, ListV) else None
+        run.check(got is not None and sorted(got) == sorted(ids_), 'REF.range', 'cantera._get_omkm_range',
+                  'concrete identifiers: ' + label,
+                  'identifiers %s come back as %s, which denotes %s' % (ids_, show(lst, 120), got), m, fn,
+                  sample='%s -> %s' % (ids_, show(lst, 100)))
+        n += 1
     r = I.call_function(m, fn, [], {'objs': ListV([])})
     run.check(r == '[]', 'REF.range', 'cantera._get_omkm_range', 'empty', 'empty collection must give [] (got %s)'
               % show(r), m, fn)
@@ -204,11 +246,13 @@ def wrapping(run, repo, thorough):
     cases += [(w_, l_, f_) for w_, l_, f_ in itertools.product(
         ([10, 10, 10], [29, 1, 29, 1, 29, 1, 29], [12, 7, 3, 25, 30, 8, 8, 8, 14, 2, 2, 2, 19, 30, 30, 1, 5], [5]),
         ((80, 80), (40, 60)), ('tuple', 'string'))]
+    # a value in which tokens repeat (a species listed twice, equal numbers)
+    cases += [([10, 10, 10, 10, 10, 10, 10, 10], l_, 'repeated') for l_ in ((80, 80), (40, 60))]
     for widths, (line_len, max_len), form in cases:
         I = Interp(repo)
         toks = []
         for k, w in enumerate(widths):
-            key = Z + 'tok%d' % k
+            key = Z + 'tok%d' % (k % 3 if form == 'repeated' else k)
             I.sym_strings[key] = (w, 'any')          # tokens of a CTI value are free text without blanks
             toks.append(key)
         if form == 'string':
@@ -247,6 +291,12 @@ def wrapping(run, repo, thorough):
             ntok = len(line.fields()) + nq
             if L > limit and ntok > 1:
                 bad = (li, L, limit, ntok)
+            elif L > limit and ntok == 1 and line.fields():
+                # a line that holds a single token may be too long only because the token does not fit into the room
+                # a line offers (the requested width less the three columns of the quotes / the indentation under them)
+                wtok = line.fields()[0].width
+                if wtok is not None and wtok <= line_len - 3:
+                    bad = (li, L, limit, ntok)
         run.check(bad is None, 'REF.wrap-width', 'io.cantera.obj_to_cti', 'line width',
                   '[%s] line %s is %s characters long (limit %s) although it holds %s items (tokens, closing quotes)'
                   % ((label,) + (bad or (0, 0, 0, 0))), m, fn)
@@ -280,6 +330,12 @@ def check(run, repo):
 C_ = 'pmutt/cantera/__init__.py'
 W_ = 'pmutt/io/cantera.py'
 MUTANTS = [
+    {'name': 'wrap: repeated tokens written once', 'expect': ('REF.wrap-tokens', 'obj_to_cti'),
+     'edits': [('pmutt/io/cantera.py', "            cti_str = ' '.join(obj)", "            cti_str = ' '.join(list(dict.fromkeys(obj)))")]},
+    {'name': 'wrap: continuation lines indented by the sum of the widths', 'expect': ('REF.wrap-width', 'obj_to_cti'),
+     'edits': [('pmutt/io/cantera.py', "            header_spaces = ' ' * (max_line_len - line_len + 3)", "            header_spaces = ' ' * (max_line_len + line_len + 3)")]},
+    {'name': 'ranges: suffixes printed five digits wide', 'expect': ('REF.range', '_get_omkm_range'),
+     'edits': [('pmutt/cantera/__init__.py', "                    CTI_range = ('\"{0}{1:04d} to {0}{2:04d}\", '", "                    CTI_range = ('\"{0}{1:05d} to {0}{2:05d}\", '")]},
     {'name': 'range end uses second element', 'expect': ('REF.range', '_get_omkm_range'),
      'edits': [(C_, 'header_delim, footer_range[0], footer_range[-1])', 'header_delim, footer_range[0], footer_range[1])')]},
     {'name': 'prefix split at the first delimiter', 'expect': ('', '_get_omkm_range'),
